@@ -4,7 +4,7 @@ cd /verif
 fail=0
 for p in $(python3 -c "import json;print(' '.join(c['property_id'] for c in json.load(open('/verif/MANIFEST.json'))['checks']))"); do
   out=$(./check $p --tier ${1:-quick} 2>&1); rc=$?
-  echo "$out" | tail -1
+  echo "$out" | tail -1; echo "$out" | grep -q UNDECIDED && { echo "$out" | grep UNDECIDED; fail=1; }
   [ $rc -ne 0 ] && { echo "$out" | grep -v "^KNOWN" | head -5; fail=1; }
 done
 ./validate.sh >/dev/null && echo "evidence valid" || { echo "EVIDENCE INVALID"; fail=1; }
